@@ -52,6 +52,8 @@ CredSyms   == {[Ses("authenticating", i) EXCEPT !.scheme = s, !.ident = ic[1], !
                  ic \in {<<"a", "p">>, <<"b", "q">>}}
               \cup {[Ses("authenticating", i) EXCEPT !.scheme = s, !.ident = d, !.cred = "e"] :
                  i \in {"right", "wrong", "none"}, s \in {"guest", "transport"}, d \in {"a", "b"}}
+              \* guest credentials without any identity (no `from`)
+              \cup {[Ses("authenticating", "right") EXCEPT !.scheme = "guest", !.ident = "", !.cred = "e"]}
               \cup {[Ses("authenticating", i) EXCEPT !.ident = "a"] : i \in {"right", "wrong"}}
               \cup {[Ses("authenticating", "right") EXCEPT !.scheme = "plain", !.ident = "a"]}
               \* out-of-order state with otherwise acceptable credentials: fails that check alone
@@ -174,23 +176,26 @@ SrvRecvCreds(sym) ==
      ELSE \E ao \in AuthOutcomes(sym) :
        LET a == [Ev("auth") EXCEPT !.scheme = IF sym.cred = "" THEN "" ELSE sym.scheme, !.ident = sym.ident,
                                    !.cred = sym.cred, !.res = ao, !.tenc = tenc] IN
-       CASE ao = "error" -> BareErr(<<i, a>>, FALSE)
+       \* (server flavour: the harness finds the run of a callback by the identity's name; without one the
+       \*  callback's own record is missing from the observations)
+       LET ia == IF cfg.flavour = "server" /\ sym.ident = "" THEN <<i>> ELSE <<i, a>> IN
+       CASE ao = "error" -> BareErr(ia, FALSE)
          [] KnownRole(ao) ->
               \E ro \in {"ok", "error"} :
                 LET r == [Ev("reg") EXCEPT !.ident = sym.ident, !.res = ro] IN
-                IF ro = "error" THEN BareErr(<<i, a, r>>, FALSE)
-                ELSE /\ obs' = obs \o <<i, a, r, [Out("established") EXCEPT !.to = "reg"]>>
+                IF ro = "error" THEN BareErr(ia \o <<r>>, FALSE)
+                ELSE /\ obs' = obs \o ia \o <<r, [Out("established") EXCEPT !.to = "reg"]>>
                                    \o RetEv("nil", "established", tenc) \o StateEv("established")
                                    \o (IF cfg.flavour = "server"
                                        THEN <<[Ev("cbEst") EXCEPT !.tenc = tenc]>> ELSE <<>>)
                      /\ sState' = "established" /\ pc' = "estab"
                      /\ UNCHANGED <<cfg, open, tenc, rt, fed>>
          [] ao = "roundtrip" ->
-              /\ obs' = obs \o <<i, a, [Out("authenticating") EXCEPT !.cred = "rt"]>>
+              /\ obs' = obs \o ia \o <<[Out("authenticating") EXCEPT !.cred = "rt"]>>
                             \o StateEv("authenticating")
               /\ rt' = rt + 1
               /\ UNCHANGED <<cfg, pc, sState, open, tenc, fed>>
-         [] OTHER -> Fail(<<i, a>>)
+         [] OTHER -> Fail(ia)
 
 -----------------------------------------------------------------------------
 (* data sent by the client on the established session reaches the streams / handlers *)
